@@ -19,24 +19,26 @@ From TV Require Import Common.ObsCore C08.Model.
 Import ListNotations.
 
 Inductive sep := Dot | Colon.
-Definition ename := list (list fname * sep).
+(* an item: the alternative names, the separator that follows, and the '?' suffix (optional: no complaint where
+   the trait is missing) *)
+Definition ename := list (list fname * sep * bool).
 
 Definition is_container (f : fname) : bool := (3 <=? f) && (f <=? 5).
 Definition sep_notify (s : sep) : bool := match s with Dot => true | Colon => false end.
 
 (* one link of a name: trait f, then (for List/Dict/Set traits) the items of its value *)
-Definition link (f : fname) (n : bool) (cs : list graph) : graph :=
-  if is_container f then G [f] n true [G [items_field f] n false cs] else G [f] n true cs.
+Definition link (f : fname) (n p : bool) (cs : list graph) : graph :=
+  if is_container f then G [f] n true p [G [items_field f] n false false cs] else G [f] n true p cs.
 
 Fixpoint legacy_to_graph (e : ename) : option (list graph) :=
   match e with
   | [] => None
-  | [(names, _)] =>
+  | [(names, _, p)] =>
       (* the final attribute: a plain (non-container) trait, always notifying *)
-      if forallb (fun f => negb (is_container f)) names then Some (map (fun f => G [f] true true []) names) else None
-  | (names, s) :: rest =>
+      if forallb (fun f => negb (is_container f)) names then Some (map (fun f => G [f] true true p []) names) else None
+  | (names, s, p) :: rest =>
       match legacy_to_graph rest with
-      | Some cs => Some (map (fun f => link f (sep_notify s) cs) names)
+      | Some cs => Some (map (fun f => link f (sep_notify s) p cs) names)
       | None => None
       end
   end.
@@ -56,10 +58,10 @@ Definition unshared (h : heap) : Prop :=
   (forall x f x' f' y, In y (h x f) -> In y (h x' f') -> x = x' /\ f = f').
 (* the graphs of a legacy name: every node observes exactly one trait, and the alternatives of one
    item name different traits *)
-Definition gfield (g : graph) : fname := match g with G fs _ _ _ => hd 0 fs end.
+Definition gfield (g : graph) : fname := match g with G fs _ _ _ _ => hd 0 fs end.
 Fixpoint distinct_fields (g : graph) {struct g} : Prop :=
   match g with
-  | G fs _ _ cs =>
+  | G fs _ _ _ cs =>
       (exists f, fs = [f]) /\
       NoDup (map gfield cs) /\
       (fix all (l : list graph) : Prop := match l with [] => True | c :: l' => distinct_fields c /\ all l' end) cs
